@@ -25,11 +25,14 @@ func init() {
 		"set f to transform set i to 0 loop set i to i + 1 if i > 2 then break end end break return i end\nreplace all 'a' with f",
 		"set f to transform set i to 0 loop set i to i + 1 if i > 2 then break end end if i > 1 then continue end return i end\nreplace all 'a' with f",
 		"set p to pattern 'a' begin loop break end break return true end\nfind all p")
+	// a transform that writes ever larger numbers as text (match numbers times seven over thousands of matches)
+	c19CountingIdx = len(c19Pool)
+	c19Pool = append(c19Pool, "set f to transform return '' + matchNumber * 7 end\nreplace all letter with f")
 	c19BigLoopIdx = len(c19Pool)
 	c19Pool = append(c19Pool, "set f to transform set n to 0 loop set n to n + 1 if n > 3 then break end "+strings.Repeat("set m to n + 1 ", 6000)+"end return n end\nreplace all 'a' with f")
 }
 
-var c19VictimIdx, c19BigLoopIdx int
+var c19VictimIdx, c19CountingIdx, c19BigLoopIdx int
 
 var c19Pool = []string{
 	"find all @/((a)b)\\1\\2/",
@@ -169,7 +172,7 @@ func C19(r *drv.Run) {
 	if !quick(r) {
 		rounds = 3000
 	}
-	r.Rule = "rounds of 8..32 goroutines issuing Compile (sources with and without regex groups, with loops, with relocated global patterns, sources that fail in the lexer / parser / regex sub-parser / generator / type checker, sources of about a kilobyte), Compile+Run, Run on shared pre-compiled programs and Run followed by Json()/FormattedJson() of the result list, on short texts and on texts long enough for loops to pass 64, 128 and 256 iterations in one attempt, all released from one barrier, in a -race build of the worker; yield hooks (H2 every lexer read, H3 parser/generator sites, H1 every VM step) armed in half of the rounds. Plus compile storms: 16 goroutines each compiling a few tiny sources two hundred times over without yields (9 600 compilations per storm), every repetition compared. In every third round a third of the calls are RunFiles calls of two linear programs over ONE file of 13 KB (three reader windows) and one small file, so that several goroutines search the same file at the same time. Every thirtieth round adds four goroutines that run a linear replace command (three of them compiling it themselves) on two different texts of more than a mebibyte with thousands of matches. Every Run call files a label of its own under each match it got back (the exported variable map of a match belongs to the caller): afterwards its matches carry that label and no other, and no later call sees it. Every thirtieth round has six goroutines compiling a transform whose loop body holds 6 000 statements while eighteen others compile, twenty times each, three sources that must be rejected (break or continue behind a finished loop): the verdict of a compilation is its own. Every thirtieth round has sixteen goroutines rewriting their own files (mode NEW, six calls each) while eight others search file NAMES (RunFiles with its third argument set) 120 times each: every output file equals the one the call writes alone. Every thirtieth round is a crowd of 96 goroutines, each rewriting its own copy of a 13 KB file in replace mode NEW (reader and writer open at the same time): all of them return. One round in ten runs next to one more compilation that waits for its source on a named pipe; the source is delivered when every other call has returned - a call that alone returns at once must not wait for it (the writer gives up after 20 s, which is the violation). Oracle 1: the Go race detector (GORACE halt_on_error=0, log files parsed, reports de-duplicated by the pair of outermost repository frames): any report is a violation. Oracle 2: every concurrent call's result digest (canonical bytecode with loop ids normalised; all match fields; the rendered JSON texts) equals the digest of the same call executed alone in a fresh sequential worker. Oracle 3: canonical bytecode of the shared programs unchanged by the round. Non-trivial = a call whose [call,return] interval overlapped another call's on the shared monotonic clock; distinct by (round, call index)."
+	r.Rule = "rounds of 8..32 goroutines issuing Compile (sources with and without regex groups, with loops, with relocated global patterns, sources that fail in the lexer / parser / regex sub-parser / generator / type checker, sources of about a kilobyte), Compile+Run, Run on shared pre-compiled programs and Run followed by Json()/FormattedJson() of the result list, on short texts and on texts long enough for loops to pass 64, 128 and 256 iterations in one attempt, all released from one barrier, in a -race build of the worker; yield hooks (H2 every lexer read, H3 parser/generator sites, H1 every VM step) armed in half of the rounds. Plus compile storms: 16 goroutines each compiling a few tiny sources two hundred times over without yields (9 600 compilations per storm), every repetition compared. In every third round a third of the calls are RunFiles calls of two linear programs over ONE file of 13 KB (three reader windows) and one small file, so that several goroutines search the same file at the same time. Every thirtieth round adds four goroutines that run a linear replace command (three of them compiling it themselves) on two different texts of more than a mebibyte with thousands of matches. Every Run call files a label of its own under each match it got back (the exported variable map of a match belongs to the caller): afterwards its matches carry that label and no other, and no later call sees it. In the same rounds four goroutines compile and run a transform that writes ever larger numbers (7, 14 .. 70 000) as text over a 13 KB input. Every thirtieth round has six goroutines compiling a transform whose loop body holds 6 000 statements while eighteen others compile, twenty times each, three sources that must be rejected (break or continue behind a finished loop): the verdict of a compilation is its own. Every thirtieth round has sixteen goroutines rewriting their own files (mode NEW, six calls each) while eight others search file NAMES (RunFiles with its third argument set) 120 times each: every output file equals the one the call writes alone. Every thirtieth round is a crowd of 96 goroutines, each rewriting its own copy of a 13 KB file in replace mode NEW (reader and writer open at the same time): all of them return. One round in ten runs next to one more compilation that waits for its source on a named pipe; the source is delivered when every other call has returned - a call that alone returns at once must not wait for it (the writer gives up after 20 s, which is the violation). Oracle 1: the Go race detector (GORACE halt_on_error=0, log files parsed, reports de-duplicated by the pair of outermost repository frames): any report is a violation. Oracle 2: every concurrent call's result digest (canonical bytecode with loop ids normalised; all match fields; the rendered JSON texts) equals the digest of the same call executed alone in a fresh sequential worker. Oracle 3: canonical bytecode of the shared programs unchanged by the round. Non-trivial = a call whose [call,return] interval overlapped another call's on the shared monotonic clock; distinct by (round, call index)."
 	r.Assumptions = []string{
 		"the race detector only sees races on schedules that occur; yields and repetition raise the odds, not to certainty",
 		"the harness's own monitor state is atomic in concurrent mode; the step and lexer counters are switched off there",
@@ -212,7 +215,7 @@ func C19(r *drv.Run) {
 	for _, p := range c19LinearProgs {
 		keys = append(keys, key{"runfiles", p, longIdx}, key{"runfiles", p, 3}, key{"run", p, longIdx})
 	}
-	keys = append(keys, key{"runfiles-new", replIdx, longIdx}, key{"runfiles-names", 13, 3})
+	keys = append(keys, key{"runfiles-new", replIdx, longIdx}, key{"runfiles-names", 13, 3}, key{"compile+run", c19CountingIdx, longIdx})
 	keys = append(keys, key{"compile+run", replIdx, hugeIdx}, key{"compile+run", replIdx, hugeIdx + 1}, key{"run", replIdx, hugeIdx})
 	// sequential reference digests, one fresh (non-race) worker process per call
 	r.Exec(len(keys), drv.ExecOpts{Batch: 8}, func(i int) *drv.Item {
@@ -294,6 +297,11 @@ func C19(r *drv.Run) {
 				for k := 0; k < 20; k++ {
 					calls = append(calls, wire.Call{Kind: "compile", Prog: c19VictimIdx + (q+k)%3, G: q})
 				}
+			}
+			// ... and four more goroutines each compile and run a transform that writes the numbers 7, 14 .. 70 000 as text
+			// over the 13 KB text (numbers no call of this process has written before)
+			for q := 0; q < 4; q++ {
+				calls = append(calls, wire.Call{Kind: "compile+run", Prog: c19CountingIdx, Text: longIdx, G: q})
 			}
 			r.Count("rounds_of_rejected_sources_compiled_next_to_a_long_loop_body", 1)
 		}
